@@ -6,7 +6,7 @@ import copy
 import json
 import os
 import sys
-from typing import Any, List, Tuple
+from typing import Any, Dict, List, Tuple
 
 from spec_classes import Attr, spec_class, spec_property
 from spec_classes.errors import FrozenInstanceError
@@ -84,6 +84,30 @@ def c_sharing():
     g2 = Grid(rows=arg)
     if g2.rows[0] is arg[0]:
         return "Grid(rows=arg) holds the caller's own inner list"
+    return None
+
+
+@spec_class(bootstrap=True)
+class Fleet:
+    engines: Dict[str, Engine] = {"spare": Engine(power=1)}
+    tags: List[str] = ["t"]
+
+
+def c_container_values_sharing():
+    """containers whose *keys* are atoms but whose values are mutable objects"""
+    arg = {"a": Engine(power=5)}
+    f = Fleet(engines=arg)
+    if f.engines["a"] is arg["a"]:
+        return "Fleet(engines=arg) holds the caller's own Engine object as a dict value"
+    g = f.with_tags(["u"])
+    if g.engines["a"] is f.engines["a"]:
+        return "Fleet(...).with_tags([...]) shares the Engine dict value with the receiver"
+    d1, d2 = Fleet(), Fleet()
+    if d1.engines["spare"] is d2.engines["spare"] or d1.engines["spare"] is Fleet.__dict__.get("engines", {}).get("spare"):
+        return "two Fleet() instances (or an instance and the class-level default) share the default's Engine dict value"
+    r = f.reset_engines()
+    if r.engines["spare"] is d1.engines["spare"] or r.engines["spare"] is Fleet.__dict__.get("engines", {}).get("spare"):
+        return "reset_engines() yields the class-level default's own Engine dict value"
     return None
 
 
@@ -202,7 +226,7 @@ def c_chain_through_unset_link():
     return None
 
 
-CHECKS = {"C01": [c_sharing, c_nested_failure, c_argument_container_untouched], "C06": [c_argument_container_untouched], "C02": [c_sharing, c_nothing_to_update], "C08": [c_sharing, c_reset_all], "C04": [c_nested_failure, c_failed_assignment_keeps_caches],
+CHECKS = {"C01": [c_sharing, c_nested_failure, c_argument_container_untouched, c_container_values_sharing], "C06": [c_argument_container_untouched], "C02": [c_sharing, c_nothing_to_update, c_container_values_sharing], "C08": [c_sharing, c_reset_all, c_container_values_sharing], "C04": [c_nested_failure, c_failed_assignment_keeps_caches],
           "C07": [c_nested_failure], "C05": [c_reset_all], "C11": [c_chain_through_unset_link, c_collection_invalidation, c_failed_assignment_keeps_caches]}
 
 REPLAY = '''#!/venv/bin/python
